@@ -17,6 +17,7 @@ from ..core.tables import FiniteEval, Opaque
 from ..stencil import kernels
 from ..stencil.alg import Aff, Lin, Rat, idx_key, fmt_atom, Fr
 from ..stencil.interp import subst_lin
+from ..core.template import find, has, require
 
 LEVEL = 'other'
 SIMS = 'emg3d/simulations.py'
@@ -251,31 +252,38 @@ def scatter_and_material_derivative(ctx):
           'maps.interp_edges_to_vol_averages']
     ctx.anchor(len(cs) == 1, 'interp_edges_to_vol_averages call in gradient')
     kws = {k.arg: ast.unparse(k.value) for k in cs[0].keywords}
-    want = {pn[0]: 'gfield.fx', pn[1]: 'gfield.fy', pn[2]: 'gfield.fz',
-            pn[3]: "cell_volumes.reshape(shape, order='F')",
-            pn[4]: 'grad[0, ...]', pn[5]: 'grad[1, ...]',
-            pn[6]: 'grad[2, ...]'}
+    cm_ = find(f'maps.interp_edges_to_vol_averages({pn[0]}=_g_.fx, '
+               f'{pn[1]}=_g_.fy, {pn[2]}=_g_.fz, {pn[3]}=_v_.reshape(_s_, '
+               f"order='F'), {pn[4]}=_o_[0, ...], {pn[5]}=_o_[1, ...], "
+               f'{pn[6]}=_o_[2, ...])', g)
+    ok = len(cm_) == 1
+    if ok:
+        bb = cm_[0][1]
+        ok = has(f'{bb["_v_"]} = {bb["_g_"]}.grid.cell_volumes', g) and \
+            has(f'{bb["_s_"]} = {bb["_g_"]}.grid.shape_cells', g)
     ctx.check('C07.G1.callsite', 'gradient -> interp_edges_to_vol_averages',
-              kws == want, f'arguments {kws} do not pair the field '
-              'components with the gradient components and the volumes',
-              ctx.where(sm, cs[0]), sample={'keywords': kws})
-    gf = [n for n in ast.walk(g) if isinstance(n, ast.Assign) and
-          ast.unparse(n.targets[0]) == 'gfield']
-    ok = len(gf) == 1 and ast.unparse(gf[0].value).replace(' ', '') == \
-        'fields.Field(grid=efield.grid,data=np.real(bfield.field*' \
-        'efield.smu0*efield.field))'
-    ctx.check('C07.G1.callsite', 'gradient integrand Re(lambda smu0 E)', ok,
-              'the integrand is not the real part of back-propagated field '
-              'times s*mu0 times forward field', ctx.where(sm, gf[0] if gf
-                                                          else g))
-    both = [n for n in ast.walk(g) if isinstance(n, ast.Assign) and
-            ast.unparse(n.targets[0]) in ('efield', 'bfield')]
-    txt = {ast.unparse(n.targets[0]): ast.unparse(n.value) for n in both}
+              ok, f'arguments {kws} do not pair the field components with '
+              'the gradient components and the cell volumes of the same '
+              'grid', ctx.where(sm, cs[0]), sample={'keywords': kws})
+    ef = find("_e_ = self._dict_get('efield', _s_, _f_)", g)
+    bf = find("_b_ = self._dict_get('bfield', _s_, _f_)", g)
+    ok = len(ef) == 1 and len(bf) == 1 and \
+        (ef[0][1]['_s_'], ef[0][1]['_f_']) == (bf[0][1]['_s_'],
+                                               bf[0][1]['_f_'])
     ctx.check('C07.G1.callsite', 'gradient pairs forward and back field of '
-              'the same (source, frequency)', txt == {
-                  'efield': "self._dict_get('efield', src, freq)",
-                  'bfield': "self._dict_get('bfield', src, freq)"},
-              f'fields are taken as {txt}', ctx.where(sm, g))
+              'the same (source, frequency)', ok, 'forward and '
+              'back-propagated field are not taken for the same task',
+              ctx.where(sm, g))
+    if ok:
+        e, b_ = ef[0][1]['_e_'], bf[0][1]['_b_']
+        gfd = find(f'_g_ = fields.Field(grid={e}.grid, data=np.real('
+                   f'{b_}.field * {e}.smu0 * {e}.field))', g)
+        ctx.check('C07.G1.callsite', 'gradient integrand Re(lambda smu0 E)',
+                  len(gfd) == 1 and kws.get(pn[0]) ==
+                  gfd[0][1]['_g_'] + '.fx', 'the integrand is not the real '
+                  'part of back-propagated field times s*mu0 times forward '
+                  'field (on the grid of the forward field)',
+                  ctx.where(sm, g))
 
 
 def adjoint_sources(ctx):
@@ -298,49 +306,67 @@ def adjoint_sources(ctx):
     ctx.anchor(len(loop) == 1, 'receiver loop in _get_rfield')
     body = loop[0].body
     first = body[0]
-    ok = isinstance(first, ast.If) and ast.unparse(first.test).replace(
-        ' ', '') == 'np.isnan(residual[i])' and isinstance(
-            first.body[0], ast.Continue)
+    ok = isinstance(first, ast.If) and has('np.isnan(_r_[_i_])',
+                                           first.test) and isinstance(
+        first.body[0], ast.Continue)
     ctx.check('C07.AS.nan', '_get_rfield skips NaN residuals first', ok,
               'missing observations are not skipped before an adjoint '
               'source is created (NaN would enter the source field)',
               ctx.where(sm, loop[0]))
-    txt = ast.unparse(fn).replace(' ', '')
+    r_ = find(f'_r_ = self.data.residual.loc[{ps[1]}, :, {ps[2]}].data', fn)
+    w_ = find(f'_w_ = self.data.weights.loc[{ps[1]}, :, {ps[2]}].data', fn)
     ctx.check('C07.AS.source', '_get_rfield: residual and weights of this '
-              'source/frequency',
-              f'residual=self.data.residual.loc[{ps[1]},:,{ps[2]}].data' in txt
-              and f'weight=self.data.weights.loc[{ps[1]},:,{ps[2]}].data'
-              in txt, 'residual / weights are not taken at the task\'s own '
+              'source/frequency', len(r_) == 1 and len(w_) == 1,
+              'residual / weights are not taken at the task\'s own '
               '(source, frequency)', ctx.where(sm, fn))
-    ctx.check('C07.AS.source', '_get_rfield: source strength',
-              'strength=np.conj(residual*weight/-rfield.smu0)' in txt,
+    rn = r_[0][1]['_r_'] if r_ else 'residual'
+    wn = w_[0][1]['_w_'] if w_ else 'weight'
+    rf_ = find('_rf_ = fields.Field(_g_, frequency=_fq_)', fn)
+    ctx.anchor(len(rf_) == 1, 'adjoint source field in _get_rfield')
+    rf, gr, fq = (rf_[0][1][k] for k in ('_rf_', '_g_', '_fq_'))
+    st_ = find(f'_s_ = np.conj({rn} * {wn} / -{rf}.smu0)', fn)
+    ctx.check('C07.AS.source', '_get_rfield: source strength', len(st_) == 1,
               'adjoint source strength is not conj(residual*weight/(-s mu0))',
               ctx.where(sm, fn))
-    ctx.check('C07.AS.source', '_get_rfield: receiver position and source',
-              f'coords=rec.coordinates_abs(self.survey.sources[{ps[1]}])'
-              in txt and 'src=rec._adjoint_source(coords,strength=strength[i])'
-              in txt and 'rfield.field+=src.get_field(grid=grid,'
-              'frequency=freq).field' in txt,
-              'adjoint source is not placed at the (absolute) receiver '
-              'position with the receiver\'s own strength',
-              ctx.where(sm, fn))
+    sn = st_[0][1]['_s_'] if st_ else 'strength'
+    lv = loop[0].target
+    ok = isinstance(lv, ast.Tuple) and has(
+        'enumerate(self.survey.receivers.values())', loop[0].iter)
     ctx.check('C07.AS.source', '_get_rfield enumerates the receivers in '
-              'data order', ast.unparse(loop[0].iter).replace(' ', '') ==
-              'enumerate(self.survey.receivers.values())',
-              'receiver loop does not follow the order of the data '
-              'dimension', ctx.where(sm, loop[0]))
+              'data order', ok, 'receiver loop does not follow the order of '
+              'the data dimension', ctx.where(sm, loop[0]))
+    if ok:
+        i_, rec = lv.elts[0].id, lv.elts[1].id
+        co = find(f'_c_ = {rec}.coordinates_abs(self.survey.sources['
+                  f'{ps[1]}])', loop[0])
+        ok2 = len(co) == 1
+        if ok2:
+            sr = find(f'_x_ = {rec}._adjoint_source({co[0][1]["_c_"]}, '
+                      f'strength={sn}[{i_}])', loop[0])
+            ok2 = len(sr) == 1 and has(
+                f'{rf}.field += {sr[0][1]["_x_"]}.get_field(grid={gr}, '
+                f'frequency={fq}).field', loop[0])
+        ctx.check('C07.AS.source', '_get_rfield: receiver position and '
+                  'source', ok2, 'adjoint source is not placed at the '
+                  '(absolute) receiver position with the receiver\'s own '
+                  'strength and added to the source field',
+                  ctx.where(sm, fn))
+        first = body[0]
+        ctx.check('C07.AS.nan', '_get_rfield: NaN test on this receiver',
+                  has(f'np.isnan({rn}[{i_}])', first),
+                  'the NaN test does not look at this receiver\'s residual',
+                  ctx.where(sm, loop[0]))
     # forward sampling uses the same absolute coordinates
     su = ctx.repo.mod('emg3d/surveys.py')
     rt = su.method('Survey', '_rec_types_coord')
     ctx.check('C07.AS.source', 'forward sampling at coordinates_abs(source)',
-              'r.coordinates_abs(self.sources[source])' in ast.unparse(rt),
+              has('_r_.coordinates_abs(self.sources[_s_])', rt),
               'forward responses are not sampled at the same absolute '
               'coordinates the adjoint sources use', ctx.where(su, rt))
     # tolerance of the back-propagation
     bc = sm.method('Simulation', '_bcompute')
     ctx.check('C07.AS.tol', 'back-propagation uses tol_gradient',
-              "data['solver_opts']['tol'] = self.tol_gradient" in
-              ast.unparse(bc), 'back-propagated fields are not computed '
+              has("_d_['solver_opts']['tol'] = self.tol_gradient", bc), 'back-propagated fields are not computed '
               'with the gradient tolerance', ctx.where(sm, bc))
     g = [m for m in sm.methods('Simulation', 'gradient')
          if 'property' in au.decorator_names(m)][0]
